@@ -304,6 +304,37 @@ func runC11(c *Ctx) {
 		}
 	}
 
+	// ------------------------------------------------------------- D6 complete reads
+	c.Rule("C11-D6", "frames are read completely: the payload buffer of DecodeWithLen and every header buffer of the WebTransport reader are filled with io.ReadFull (whose error is tested), never with a single Read "+
+		"— a stream that delivers a frame in several chunks would otherwise yield a zero-padded packet and lose frame synchronisation", 4)
+	for _, a := range []struct{ short, fn string }{{"eioparser", "DecodeWithLen"}, {"webtransport", "nextPacketWithLimit"}} {
+		fn := p.Fn(a.short, a.fn)
+		var rdr *ssa.Parameter
+		for _, par := range fn.Params {
+			if strings.HasSuffix(par.Type().String(), "io.Reader") {
+				rdr = par
+			}
+		}
+		if rdr == nil {
+			anchorFail("C11-D6: %s has no io.Reader parameter", a.fn)
+		}
+		nFull := 0
+		for _, cs := range Calls(fn) {
+			cc := cs.Common()
+			if cc.IsInvoke() && cc.Value == ssa.Value(rdr) {
+				c.Ob("C11-D6", a.short+"."+a.fn+"/no-partial-read", cs.Pos(), false, "the reader's "+cc.Method.Name()+" is called directly: a short read leaves the rest of the buffer zero and the rest of the frame in the stream")
+			}
+			if sc := cc.StaticCallee(); sc != nil && sc.String() == "io.ReadFull" && len(cc.Args) == 2 && cc.Args[0] == ssa.Value(rdr) {
+				nFull++
+				call := cs.Instr.(*ssa.Call)
+				errv := extractOf(call, 1)
+				tested := errv != nil && len(nonNilAssumes(fn, errv)) > 0
+				c.Ob("C11-D6", a.short+"."+a.fn+"/ReadFull-error-tested", cs.Pos(), tested, "the error of io.ReadFull is not tested: a truncated frame would be decoded from a partly filled buffer")
+			}
+		}
+		c.Ob("C11-D6", a.short+"."+a.fn+"/reads-with-ReadFull", fn.Pos(), nFull >= 1, "no io.ReadFull on the reader: the frame is not read completely")
+	}
+
 	// ------------------------------------------------------------- D5 bounded allocation
 	c.Rule("C11-D5", "bounded allocation: the frame length announced in a WebTransport header is compared with the configured limit before DecodeWithLen allocates it, the compared value is the "+
 		"allocated one, and the server reads every frame through the limited reader", 3)
